@@ -24,6 +24,16 @@ type bop struct {
 	P  int    `json:"p"`
 	// drop: message kind lost on the relay->P direction
 	Kind string `json:"kind,omitempty"`
+	// send: Size > 0 pads the payload to that many bytes (sizes around powers of two, where buffers and limits sit)
+	Size int `json:"size,omitempty"`
+}
+
+// pl abbreviates a payload for messages.
+func pl(s string) string {
+	if len(s) > 48 {
+		return fmt.Sprintf("%s...(%d bytes)", s[:48], len(s))
+	}
+	return s
 }
 
 type bCase struct {
@@ -65,6 +75,9 @@ func genBridge(t *rapid.T, withDrop bool) bCase {
 		o := bop{Op: rapid.SampledFrom(ops).Draw(t, "op"), P: rapid.IntRange(0, 1).Draw(t, "p")}
 		if o.Op == "drop" {
 			o.Kind = rapid.SampledFrom([]string{"recv", "ack", "opened"}).Draw(t, "kind")
+		}
+		if o.Op == "send" && rapid.IntRange(0, 5).Draw(t, "big") == 0 {
+			o.Size = 1<<rapid.SampledFrom([]int{12, 14, 15, 16, 16, 16, 17}).Draw(t, "sizek") + rapid.IntRange(-200, 2).Draw(t, "sized")
 		}
 		c.Ops = append(c.Ops, o)
 	}
@@ -224,10 +237,15 @@ func (g *brig) setAuto() {
 	}
 }
 
-func (g *brig) send(p int, repeat ...bool) *sendRec {
+func (g *brig) send(p int, repeat ...bool) *sendRec { return g.sendN(p, 0, repeat...) }
+
+func (g *brig) sendN(p, size int, repeat ...bool) *sendRec {
 	g.mu.Lock()
 	g.nsend++
 	sr := &sendRec{from: p, payload: fmt.Sprintf("msg-%d-from-%d", g.nsend, p), startAt: tick()}
+	if size > len(sr.payload) {
+		sr.payload += "|" + strings.Repeat("x", size-len(sr.payload)-1)
+	}
 	if len(repeat) > 0 && repeat[0] && g.lastPay[p] != "" {
 		sr.payload = g.lastPay[p]
 	}
@@ -310,7 +328,10 @@ func (g *brig) run(ops []bop, classes map[string]bool) []string {
 			if n >= 6 {
 				continue
 			}
-			g.send(op.P, op.Op == "resend")
+			g.sendN(op.P, op.Size, op.Op == "resend")
+			if op.Size > 0 {
+				classes["large-payload"] = true
+			}
 			if op.Op == "resend" {
 				classes["payload-repeated"] = true
 			}
@@ -357,7 +378,11 @@ func (g *brig) run(ops []bop, classes map[string]bool) []string {
 			classes["dropping-relay"] = true
 		case "pause":
 		}
-		hist = append(hist, fmt.Sprintf("%s(%d%s)", op.Op, op.P, op.Kind))
+		if op.Size > 0 {
+			hist = append(hist, fmt.Sprintf("%s(%d,%dB)", op.Op, op.P, op.Size))
+		} else {
+			hist = append(hist, fmt.Sprintf("%s(%d%s)", op.Op, op.P, op.Kind))
+		}
 		quiesce(g.activity)
 	}
 	return hist
@@ -400,10 +425,10 @@ func (g *brig) safety(hist []string) *vstat.Violation {
 		var found, inTime bool
 		waitFor(2*time.Second, func() bool { found, inTime = match(); return found })
 		if !found {
-			return vstat.Viol("send-succeeded-without-delivery", "after %s: Send(%q) by peer %d reported success but the partner's application was never handed that message", h, s.payload, s.from)
+			return vstat.Viol("send-succeeded-without-delivery", "after %s: Send(%q) by peer %d reported success but the partner's application was never handed that message", h, pl(s.payload), s.from)
 		}
 		if !inTime {
-			return vstat.Viol("send-succeeded-before-delivery", "after %s: Send(%q) by peer %d reported success before the partner's application had even asked for a message", h, s.payload, s.from)
+			return vstat.Viol("send-succeeded-before-delivery", "after %s: Send(%q) by peer %d reported success before the partner's application had even asked for a message", h, pl(s.payload), s.from)
 		}
 	}
 	for p := 0; p < 2; p++ {
@@ -415,7 +440,7 @@ func (g *brig) safety(hist []string) *vstat.Violation {
 				}
 			}
 			if !ok {
-				return vstat.Viol("received-unsent-message", "after %s: peer %d's application was handed %q which the partner never sent", h, p, r.payload)
+				return vstat.Viol("received-unsent-message", "after %s: peer %d's application was handed %q which the partner never sent", h, p, pl(r.payload))
 			}
 			if r.msg != nil && !authentic(r.msg, 1-p) {
 				return vstat.Viol("received-unauthentic-message", "after %s: peer %d's application was handed a message not signed by its partner", h, p)
@@ -501,7 +526,7 @@ func checkC23(c bCase) (o vstat.Outcome) {
 		var stuck []string
 		for _, s := range sends {
 			if d, _, _ := s.finished(); !d && !s.cancelled {
-				stuck = append(stuck, s.payload)
+				stuck = append(stuck, pl(s.payload))
 			}
 		}
 		o.V = vstat.Viol("send-never-completes", "after %s and a stable suffix (both attached, no faults, both applications receiving) the sends %v are still pending after 10 s", strings.Join(hist, " "), stuck)
@@ -513,7 +538,7 @@ func checkC23(c bCase) (o vstat.Outcome) {
 		}
 		_, err, _ := s.finished()
 		if err != nil {
-			o.V = vstat.Viol("send-failed", "Send(%q) failed without being cancelled: %v", s.payload, err)
+			o.V = vstat.Viol("send-failed", "Send(%q) failed without being cancelled: %v", pl(s.payload), err)
 			return
 		}
 	}
